@@ -35,7 +35,10 @@ func TestMain(m *testing.M) {
 			"empty-only mode; nothing when disabled) and does not depend on previous calls (second pass in reversed order); an accepted save creates exactly cwd/<stem>.gr; a rejected request leaves the whole " +
 			"tree (names, sizes, content hashes) unchanged; no LEAK line for any file but cwd/<stem>.gr of an accepted name; exec and run do not exist; image.save creates only cwd/grol.png. Enumerated " +
 			"completely: all names up to the tier's length over an 11-symbol alphabet, bare and with .gr appended. Non-trivial: the name contains a separator, dot, NUL, space, tilde or non-ASCII byte, or .gr " +
-			"not at the end; counted exactly (enumeration), random names by text.",
+			"not at the end; counted exactly (enumeration), random names by text. Process state around the attempts (same oracle, first configuration): script-location runs the attempts with the interpreter " +
+			"state's CurrentFile set to a generated script path (relative or absolute, above, below or beside the working directory, cleaned or not) with a sentinel planted next to the script for every plain " +
+			"name tried (non-trivial: the script's directory is not the working directory); init-again calls extensions.Init one to three more times in the child (nil, unrestricted, or random flags) before a " +
+			"generated position in the name list, and only the first call may count (non-trivial: a later configuration differs from the first).",
 		Assumptions: []string{
 			"no symlink is planted in the working directory: a pre-existing symlink with a plain name (cwd/link.gr -> ../outside.gr) is followed by save/load, which is about the directory's content, not about names a program can choose (observed while building the check; not asserted)",
 			"reads of files that are not sentinels cannot be observed through output; the confinement of reads relies on the sentinel placement and on the name predicate",
